@@ -313,12 +313,12 @@ func cmdCheck(args []string) {
 			}
 		}
 	}
-	var fl []string
+	fl := []string{}
 	for f := range funcs {
 		fl = append(fl, strings.Replace(f, modPath+"/", "", -1))
 	}
 	sort.Strings(fl)
-	var as []string
+	as := []string{}
 	for a := range assumptions {
 		as = append(as, a)
 	}
